@@ -444,8 +444,15 @@ def sf_g(I, fr, name, *idx):
     return Sym(t, "array")
 
 
+def sf_is_transport_error(I, fr, o):
+    from pyvc import models
+    if isinstance(o, SpecOpt):
+        o = o.value
+    return Sym(models.exc_is_transport_error(o.ref), "bool")
+
+
 SPEC_GLOBALS = {
-    "g": sf_g,
+    "g": sf_g, "is_transport_error": sf_is_transport_error,
     "inb": sf_inb, "outb": sf_outb, "first_line": sf_first_line, "after_line": sf_after_line, "has_line": sf_has_line,
     "utf8_ok": sf_utf8_ok, "utf8_dec": sf_utf8_dec, "utf8": sf_utf8, "bcat": sf_bcat,
     "rstrip": sf_rstrip, "nth": sf_nth, "rest": sf_rest, "nfields": sf_nfields, "cross_ok": sf_cross_ok,
